@@ -27,6 +27,12 @@ Parties == {"A", "B"}
 TupSet(sq) == {<<sq[i][1], sq[i][2]>> : i \in DOMAIN sq}
 Tup4Set(sq) == {<<sq[i][1], sq[i][2], sq[i][3], sq[i][4]>> : i \in DOMAIN sq}
 
+\* an encrypted signature the observer cannot resolve (made with a DH value nobody's exponent is known for)
+Opaque(xs) == IF ~xs.ok \/ xs.s1 = -1 \/ xs.s2 = -1
+              THEN [ok |-> FALSE, kind |-> "?", s1 |-> 0, s2 |-> 0, pub |-> "?", kid |-> 0, sig |-> FALSE] ELSE xs
+OpaqueMsg(m) == IF m.t \in {"RS", "SIG"} THEN [m EXCEPT !.xs = Opaque(@)] ELSE m
+OpaquePair(pr) == IF pr[1] = -1 \/ pr[2] = -1 THEN <<-1, -1>> ELSE pr
+
 \* logged message -> specification message
 NormMsg(m) ==
   CASE m.t = "Q" -> [t |-> "Q", vs |-> m.vs]
@@ -39,9 +45,10 @@ NormMsg(m) ==
     [] m.t = "D" -> [t |-> "D", v |-> m.v, st |-> m.st, rt |-> m.rt, flag |-> m.flag, skid |-> m.skid,
                      rkid |-> m.rkid, next |-> m.next, ctr |-> m.ctr, mac |-> <<m.mac[1], m.mac[2]>>,
                      text |-> m.text, rs |-> m.rs, tlvs |-> m.tlvs, discl |-> TupSet(m.discl)]
-    [] OTHER -> [t |-> "G"]
+    [] OTHER -> [t |-> "G", why |-> m.why, v |-> m.v, st |-> m.st, rt |-> m.rt, typ |-> m.typ, flag |-> m.flag]
 
-NormOut(out) == [i \in DOMAIN out |-> NormMsg(out[i])]
+NormOut(out) == [i \in DOMAIN out |-> OpaqueMsg(NormMsg(out[i]))]
+SpecOut(out) == [i \in DOMAIN out |-> OpaqueMsg(out[i])]
 
 \* logged projection -> the comparable part of a specification state
 StateFields == {"ms", "ver", "ws", "auth", "ax", "agy", "aenc", "ahash", "akid", "atid",
@@ -53,7 +60,7 @@ Logged(x, f) ==
   CASE f = "ctrs" -> Tup4Set(x.ctrs)
     [] f = "macs" -> Tup4Set(x.macs)
     [] f = "pend" -> TupSet(x.pend)
-    [] f = "sess" -> <<x.sess[1], x.sess[2]>>
+    [] f = "sess" -> OpaquePair(<<x.sess[1], x.sess[2]>>)
     [] f = "frag" -> <<x.frag[1], x.frag[2]>>
     [] OTHER -> x[f]
 
@@ -77,13 +84,14 @@ Apply(e) ==
 
 \* fields (of the result and of the state) in which specification and code differ
 ResultDiffs(e, r) ==
-  (IF r.out # NormOut(e.out) THEN {"out"} ELSE {})
+  (IF SpecOut(r.out) # NormOut(e.out) THEN {"out"} ELSE {})
   \cup (IF r.plain # e.plain THEN {"plain"} ELSE {})
   \cup (IF r.err # e.err THEN {"err"} ELSE {})
   \cup (IF r.evs # e.evs THEN {"evs"} ELSE {})
   \cup (IF e.panic THEN {"panic"} ELSE {})
 
-StateDiffs(e, r) == {f \in StateFields : r.s[f] # Logged(e.st, f)}
+SpecField(s, f) == IF f = "sess" THEN OpaquePair(s.sess) ELSE s[f]
+StateDiffs(e, r) == {f \in StateFields : SpecField(r.s, f) # Logged(e.st, f)}
 
 Report(e, r, d) ==
   PrintT(<<"MISMATCH", ToJson([line |-> l, i |-> e.i, ev |-> e.ev, p |-> e.p, fields |-> d,
@@ -169,13 +177,22 @@ PropViolations(e, o) ==
         THEN {<<"C19", "undisclosed MAC key list grows">>} ELSE {})
   \cup (IF e.ev # "Done" /\ e.st.inj > 0
         THEN {<<"C19", "injected messages retained after the call">>} ELSE {})
+  \cup (IF e.ev = "Recv" /\ e.atk # "" /\ e.plain = 0 /\ (\A i \in DOMAIN e.out : e.out[i].t = "E")
+           /\ \E f \in (StateFields \ {"frag"}) : SpecField(st[p], f) # Logged(e.st, f)
+                  /\ ~(f = "auth" /\ st[p].auth = "nil" /\ e.st.auth = "none" /\ ~e.st.rstep)
+        THEN {<<"C06", "a rejected message changed the conversation's state">>} ELSE {})
+  \cup (IF e.ev = "Recv" /\ e.atk # "" /\ e.plain > 0 /\ ~HasEv(e, "msg:ReceivedMessageUnencrypted")
+        THEN {<<"C02", "a tampered or forged message yielded plaintext">>} ELSE {})
   \cup (IF e.ev = "Done" /\ o.fam = "ake" /\ e.qa = 0 /\ e.qb = 0 /\ o.started /\
              ~(/\ st["A"].ms = "enc" /\ st["B"].ms = "enc" /\ st["A"].sess = st["B"].sess
                /\ st["A"].peer = "B" /\ st["B"].peer = "A" /\ st["A"].rev # st["B"].rev)
         THEN {<<"C07", "key exchange did not complete">>} ELSE {})
 
+ChangedFields(e) == IF e.ev = "Recv" THEN {f \in (StateFields \ {"frag"}) : SpecField(st[e.p], f) # Logged(e.st, f)} ELSE {}
 ReportProp(e, v) ==
-  PrintT(<<"PROP", ToJson([line |-> l, i |-> e.i, ev |-> e.ev, p |-> e.p, prop |-> v[1], reason |-> v[2]])>>)
+  PrintT(<<"PROP", ToJson([line |-> l, i |-> e.i, ev |-> e.ev, p |-> e.p, prop |-> v[1], reason |-> v[2],
+                           changed |-> IF v[1] = "C06" THEN ChangedFields(e) ELSE {},
+                           atk |-> IF e.ev = "Recv" THEN e.atk ELSE ""])>>)
 
 TraceInit ==
   /\ l = 1
